@@ -312,6 +312,101 @@ fn run(c: &Case) -> Verdict {
     pass(nontrivial, labels)
 }
 
+// ---------------------------------------------------------------------------------------------
+// metamorphic: variables a function does not depend on do not change the optimum
+
+#[derive(Clone, Debug, Hash, Serialize, Deserialize)]
+pub struct EmbedCase {
+    pub kind: Kind,
+    /// small functions (k <= 3 variables) whose exact optimum the DP computes
+    pub small: Vec<Tt>,
+    /// total number of variables of the embedded problem and, for each small variable, its position
+    pub n: usize,
+    pub positions: Vec<usize>,
+    pub and_cost: i32,
+    pub xor_cost: i32,
+    pub or_cost: i32,
+}
+
+fn strategy_embed(_t: Tier) -> BoxedStrategy<EmbedCase> {
+    (prop_oneof![Just(Kind::Sop), Just(Kind::Sopes), Just(Kind::Esop)], 1usize..=3, 1usize..=2, arb_costs())
+        .prop_flat_map(|(kind, k, outs, (a, x, o))| {
+            // the ESOP model grows as 3^n with parity constraints: embed into at most 5 variables
+            let max_n = if kind == Kind::Esop { 5usize } else { 8usize };
+            let sizes = prop_oneof![2 => (k + 1)..=max_n, 1 => Just(max_n)];
+            (vec(arb_tt(k), outs), sizes, any::<u64>(), any::<bool>()).prop_map(move |(small, n, seed, top)| {
+                // k distinct positions among n: the k highest ones (variables >= 6 for n = 8) half
+                // of the time, otherwise chosen by a fixed shuffle of the seed
+                let mut pool: Vec<usize> = if top { ((n - k)..n).collect() } else { (0..n).collect() };
+                let mut s = seed | 1;
+                let mut positions = Vec::new();
+                for _ in 0..k {
+                    s ^= s << 13;
+                    s ^= s >> 7;
+                    s ^= s << 17;
+                    let i = (s % pool.len() as u64) as usize;
+                    positions.push(pool.remove(i));
+                }
+                EmbedCase { kind, small: small.clone(), n, positions, and_cost: a, xor_cost: x, or_cost: o }
+            })
+        })
+        .boxed()
+}
+
+fn run_embed(c: &EmbedCase) -> Verdict {
+    let k = c.small[0].n;
+    let big: Vec<Tt> = c
+        .small
+        .iter()
+        .map(|f| {
+            Tt::from_fn(c.n, |m| {
+                let mut x = 0usize;
+                for (i, p) in c.positions.iter().enumerate() {
+                    x |= ((m >> p) & 1) << i;
+                }
+                f.get(x)
+            })
+        })
+        .collect();
+    let luts: Vec<Lut> = big.iter().map(to_lut).collect();
+    let (a, x, o) = (c.and_cost, c.xor_cost, c.or_cost);
+    let show = c.small.iter().map(|f| f.short()).collect::<Vec<_>>().join(", ");
+    let what = format!("{:?} optimizer on [{}] embedded at positions {:?} of {} variables (costs and={} xor={} or={})", c.kind, show, c.positions, c.n, a, x, o);
+    let ret = match c.kind {
+        Kind::Sop => match guard(|| optimize_sop_mip(&luts, a, o)) {
+            Ok(r) => {
+                let forms: Vec<(Sop, Soes)> = r.into_iter().map(|s| { let n = s.num_vars(); (s, Soes::zero(n)) }).collect();
+                judge_sop_like(&big, &forms, a as i64, x as i64, o as i64, &what)
+            }
+            Err(p) => return fail("panic:sop", format!("{} panicked: {}", what, p)),
+        },
+        Kind::Sopes => match guard(|| optimize_sopes_mip(&luts, a, x, o)) {
+            Ok(r) => judge_sop_like(&big, &r, a as i64, x as i64, o as i64, &what),
+            Err(p) => return fail("panic:sopes", format!("{} panicked: {}", what, p)),
+        },
+        Kind::Esop => match guard(|| optimize_esop_mip(&luts, a, x)) {
+            Ok(r) => judge_esop(&big, &r, a as i64, x as i64, &what),
+            Err(p) => return fail("panic:esop", format!("{} panicked: {}", what, p)),
+        },
+    };
+    let ret = match ret {
+        Ok(r) => r,
+        Err(f) => return Err(f),
+    };
+    // a literal of a variable f does not depend on never helps: the optimum over n variables is
+    // the optimum of the small functions over their own k variables
+    let opt = exact_optimum(c.kind, &c.small, a as i64, x as i64, o as i64);
+    let kind_name = format!("{:?}", c.kind).to_lowercase();
+    if ret.cost > opt {
+        return fail(format!("embed:suboptimal:{}", kind_name), format!("{}: the returned forms cost {} but the functions only depend on {} variables, over which a form of cost {} exists", what, ret.cost, k, opt));
+    }
+    if ret.cost < opt {
+        return fail("harness:optimum", format!("harness bug: {} returned cost {} below the optimum {}", what, ret.cost, opt));
+    }
+    let hi = c.positions.iter().filter(|p| **p >= 6).count();
+    pass(ret.terms_per_output.iter().any(|t| *t >= 2) || hi >= 1, vec![format!("kind:{}", kind_name), format!("n:{}", c.n), format!("k:{}", k), format!("positions>=6:{}", hi)])
+}
+
 fn arb_costs() -> BoxedStrategy<(i32, i32, i32)> {
     (1i32..=3, 1i32..=3, 1i32..=3).boxed()
 }
@@ -368,6 +463,14 @@ pub fn def() -> PropDef {
             "optimality for 3 outputs at n>=3 and 2 outputs at n=4 is only bounded, not decided",
         ],
         subs: vec![Box::new(Sub {
+            name: "embed",
+            rule: "metamorphic: 1..2 generated functions of k<=3 variables are embedded at generated positions into n<=8 variables (ESOP n<=5); the optimizers must return valid forms whose cost equals the exact optimum of the small functions (dummy variables never lower or raise the optimum). Reaches sizes (n = 5..8, variables >= 6, multi-word tables) where the exact DP itself is out of reach.",
+            strategy: strategy_embed,
+            cases: (300, 6_000),
+            exhaustive: None,
+            exhaustive_note: "",
+            run: run_embed,
+        }), Box::new(Sub {
             name: "optimum",
             rule: "see property rule",
             strategy,
